@@ -20,7 +20,7 @@ func NewDistribution(params ring.DistributionParameters, logN int) (d Distributi
 		d.AbsBound = params.Bound
 	case ring.Ternary:
 		if params.P != 0 {
-			d.Std = math.Sqrt(1 - params.P)
+			d.Std = math.Sqrt(params.P)
 		} else {
 			d.Std = math.Sqrt(float64(params.H) / (math.Exp2(float64(logN)) - 1))
 		}
